@@ -778,6 +778,18 @@ class Engine:
             return
         import functools as _ft
 
+        if type(f).__name__ == "_lru_cache_wrapper" and hasattr(f, "__wrapped__") and hasattr(f, "cache_info"):
+            # functools.lru_cache / cache: the result is the one computed now, or one computed by an earlier call with
+            # equal arguments - in whatever state the program was in then.  Without knowledge of the call history that
+            # earlier result is arbitrary, so a postcondition that ties the result to the *current* state of a mutable
+            # argument cannot be proved for a memoised function.
+            st_cached = st.copy()
+            stale = V.fresh_val("memoised_result")
+            st_cached.assume(self.external_ref_fact(st_cached, stale))
+            st_cached.calls.append(("memoised", getattr(f, "__name__", "?")))
+            yield st_cached, SV(stale)
+            yield from self.call(f.__wrapped__, args, kwargs, st, line)
+            return
         if isinstance(f, _ft.partial):
             yield from self.call(f.func, list(f.args) + list(args), {**f.keywords, **kwargs}, st, line)
             return
